@@ -11,11 +11,15 @@
    or mis-timed entry is rejected at the call that produced it.
 
      reset   {np, ni, exp, nf}                          new trace: fresh store, database, cache object
-     take    {k, r, v, nq, dbf, flip, c}                Take / TakeWithExpire / QueryRow / FindOne
-     index   {k, r, v, qi, qp, dbfi, dbfp, flip, c}     QueryRowIndex
+     take    {k, r, v, nq, dbf, flip, c [, cut, qa]}    Take / TakeWithExpire / QueryRow / FindOne
+     index   {k, r, v, qi, qp, dbfi, dbfp, flip, c [, cut, qa]}   QueryRowIndex
+                                                        cut: the harness's fault injector (a miniredis pre-hook) refused the
+                                                        cut-th and every later command the store received during the call
+                                                        (0 / absent: no outage began inside the call); qa: queries entered
+                                                        after the outage had begun
      get     {k, r, v, c}                               Get / GetCache
-     set     {k, v, x, r, c}                            Set / SetWithExpire / SetCache (x: expiry used, deciseconds)
-     write   {upd, ks, dbf, r, c}                       Exec / Transact+DelCache / harness write + Del;
+     set     {k, v, x, r, c [, cut]}                    Set / SetWithExpire / SetCache (x: expiry used, deciseconds)
+     write   {upd, ks, dbf, r, c [, cut]}               Exec / Transact+DelCache / harness write + Del;
                                                         upd: <<key, new database content>> pairs, ks: keys invalidated
      cleaner {ks, ok, c}                                the cleaner's retry task for ks ran (white-box wrapper)
      advance {d, c}                                     miniredis FastForward (and d ticks of the cleaner wheel)
@@ -24,9 +28,11 @@
                                                         (total s, max attempts: read off cleaner.go's nextDelay)
    r: "ok" | "nf" (the configured not-found error) | "dberr" (the harness's database error)
       | "cerr" (any other error).
-   Concurrent readers of one key: rstart {id, k} before the library is called, qstart {q, k, id} /
-   qend {q, k, dbf} inside the harness-owned query function, rend {id, r, v} after the call
-   returned, obs {c} when all have returned.
+   Concurrent readers (one key, or several keys with callers making one call after the other; k may be an
+   index key: QueryRowIndex): rstart {id, k} before the library is called, qstart {q, k, id} /
+   qend {q, k, dbf} inside the harness-owned query function (k: the key whose database content is
+   queried, id: the call on whose goroutine it runs), rend {id, r, v} after the call returned, obs {c}
+   when all have returned.
 
    Deviation actions (enabled only if the known finding of that name is open):
    KF_StaleAfterFailedInvalidation - a cached read served from an entry that differs from the
@@ -70,16 +76,20 @@ TReset ==
   /\ cache' = [k \in 0 .. (E.np + E.ni - 1) |-> NoEntry]
   /\ calls' = <<>> /\ running' = [k \in 0 .. (E.np + E.ni - 1) |-> 0] /\ qres' = <<>>
 
-TakeEv(kf)  == IsEvent("take")  /\ Take(E.k, E.r, E.v, E.nq, E.dbf, E.flip, TTLof(E.k), kf) /\ Bind
-IndexEv(kf) == IsEvent("index") /\ Index(E.k, E.r, E.v, E.qi, E.qp, E.dbfi, E.dbfp, E.flip,
+\* fault injector fields (absent in events of drivers that do not use it)
+Cut == IF "cut" \in DOMAIN E THEN E.cut ELSE 0
+Qa  == IF "qa" \in DOMAIN E THEN E.qa ELSE 0
+
+TakeEv(kf)  == IsEvent("take")  /\ Take(E.k, E.r, E.v, E.nq, E.dbf, E.flip, Cut, Qa, TTLof(E.k), kf) /\ Bind
+IndexEv(kf) == IsEvent("index") /\ Index(E.k, E.r, E.v, E.qi, E.qp, E.dbfi, E.dbfp, E.flip, Cut, Qa,
                                          TTLof(E.k), TTLof(Via(E.k)), kf) /\ Bind
 
 TTake    == TakeEv(FALSE)
 TIndex   == IndexEv(FALSE)
 TGet     == IsEvent("get")     /\ Get(E.k, E.r, E.v) /\ Bind
-TSet     == IsEvent("set")     /\ Set(E.k, E.v, E.x, E.r, TTLof(E.k), FALSE) /\ Bind
+TSet     == IsEvent("set")     /\ Set(E.k, E.v, E.x, E.r, TTLof(E.k), FALSE, Cut) /\ Bind
 TWrite   == IsEvent("write")   /\ Write(UpdFn(E.upd), SeqToSet(E.ks), E.dbf, E.r,
-                                         {k \in SeqToSet(E.ks) : k \in DOMAIN cache /\ Present(k) /\ k \notin SnapKeys}) /\ Bind
+                                         {k \in SeqToSet(E.ks) : k \in DOMAIN cache /\ Present(k) /\ k \notin SnapKeys}, Cut) /\ Bind
 TCleaner == IsEvent("cleaner") /\ Cleaner(SeqToSet(E.ks), E.ok) /\ Bind
 TAdvance == IsEvent("advance") /\ Advance(E.d) /\ Bind
 TFault   == IsEvent("fault")   /\ Fault(E.down) /\ Bind
@@ -93,7 +103,7 @@ KF_StaleAfterFailedInvalidation ==
 \* the known finding (unless repaired): a non-positive requested expiry makes the key persistent
 KF_PersistentKey ==
   /\ Open("KF_PersistentKey")
-  /\ IsEvent("set") /\ Set(E.k, E.v, E.x, E.r, 0, TRUE) /\ Bind
+  /\ IsEvent("set") /\ Set(E.k, E.v, E.x, E.r, 0, TRUE, 0) /\ Bind
 
 TRStart == IsEvent("rstart") /\ RStart(E.id, E.k)
 TQStart == IsEvent("qstart") /\ QStart(E.q, E.k, E.id)
